@@ -90,7 +90,7 @@ fn set_then_use(c: i64, k: i64) -> (Instruction, Instruction) {
     let mk = |cst: Instruction| -> Instruction {
         let set: Instruction = Set { ident: "x".into(), instruction: iws(cst) }.into();
         let usage: Instruction = BinOperation { lhs: local("x", Type::Int), rhs: lit(k), op: BinOperator::Subtract }.into();
-        Block { instructions: Arc::from(vec![iws(set), iws(usage)]) }.into()
+        Block { instructions: Arc::from(crate::vv![iws(set), iws(usage)]) }.into()
     };
     (mk(lit(c)), mk(hid(c)))
 }
@@ -118,8 +118,8 @@ pub fn propagate_respects_block_scope() {
     let mk = |a: Instruction, b: Instruction| -> Instruction {
         let outer_set: Instruction = Set { ident: "x".into(), instruction: iws(a) }.into();
         let inner_set: Instruction = Set { ident: "x".into(), instruction: iws(b) }.into();
-        let inner: Instruction = Block { instructions: Arc::from(vec![iws(inner_set)]) }.into();
-        Block { instructions: Arc::from(vec![iws(outer_set), iws(inner), iws(local("x", Type::Int))]) }.into()
+        let inner: Instruction = Block { instructions: Arc::from(crate::vv![iws(inner_set)]) }.into();
+        Block { instructions: Arc::from(crate::vv![iws(outer_set), iws(inner), iws(local("x", Type::Int))]) }.into()
     };
     let f = mk(lit(c1), lit(c2));
     let r = mk(hid(c1), hid(c2));
